@@ -134,6 +134,29 @@ def stateful_regex_family(methods):
     return out
 
 
+def conversion_order_family(methods):
+    """Which argument is converted first, and whose error wins: every argument is an object whose valueOf/toString log their call (and,
+    in the throwing variants, throw their own error class); a RegExp in the search position of includes/startsWith/endsWith must be
+    refused before the position argument is touched."""
+    out = []
+    two = {"includes": ["'b'", "1"], "startsWith": ["'b'", "1"], "endsWith": ["'b'", "2"], "indexOf": ["'b'", "1"], "lastIndexOf": ["'b'", "2"],
+           "padStart": ["5", "'x'"], "padEnd": ["5", "'x'"], "slice": ["1", "2"], "substring": ["1", "2"], "substr": ["1", "1"], "split": ["'b'", "2"],
+           "replace": ["'b'", "'Q'"], "replaceAll": ["'b'", "'Q'"], "concat": ["'x'", "'y'"], "localeCompare": ["'b'", "'en'"]}
+    mk = "function A(i, v, t) { return {valueOf: function () { log.push('v' + i); if (t === 'v') { throw new (i ? RangeError : SyntaxError)('a' + i); } return v; }, toString: function () { log.push('s' + i); if (t === 's') { throw new (i ? RangeError : SyntaxError)('a' + i); } return String(v); }}; }"
+    for m, (a0, a1) in two.items():
+        if m not in methods:
+            continue
+        for t0 in ("n", "v", "s"):
+            for t1 in ("n", "v", "s"):
+                for first in ("A(0, %s, '%s')" % (a0, t0), "/b/", "/b/g", "undefined", "null"):
+                    if first.startswith("/") and t0 != "n":
+                        continue
+                    src = ("(function () { var log = []; %s var R = 'abcb'; var out; try { out = [0, R.%s(%s, A(1, %s, '%s'))]; } catch (e) { out = [1, e && e.name, e && /^a[01]$/.test(e.message) ? e.message : 'engine-text']; } "
+                           "return [out, log.join()]; })()" % (mk, m, first, a1, t1))
+                    out.append(((m, "conversion-order", h([m, t0, t1, first])), src))
+    return out
+
+
 def rand_progs(methods, rng, n):
     out = []
     alpha = "abcXYZ 019,.-\t"
@@ -172,6 +195,7 @@ def main(ctx):
         progs += template_family(live, fixed, 1500 if ctx.quick else 20000) + template_family(live, rng, 1500 if ctx.quick else 20000)
         sf = stateful_regex_family(live)
         progs += sf if not ctx.quick else [x for i, x in enumerate(sf) if i % 2 == ctx.seed % 2]
+        progs += conversion_order_family(live)
         progs += rand_progs(live, fixed, 3000 if ctx.quick else 60000)
         progs += rand_progs(live, rng, 3000 if ctx.quick else 140000)
         pairs = diff.run_progs(ep, np_, [p[1] for p in progs], per=500)
